@@ -328,11 +328,10 @@ def mutants():
     orig_reach = m.reachable
 
     def bad_reach(graph, s, d):
-        # forgets to mark start visited & treats unreachable self as reachable
-        if s == d:
-            return True
+        if s == d and s in graph:
+            return s in graph[s]
         return orig_reach(graph, s, d)
-    out.append(('reachable: missing-start answers True for s==d',
+    out.append(('reachable: s reaches itself only through a self-loop',
                 lambda: setattr(m, 'reachable', bad_reach), lambda: setattr(m, 'reachable', orig_reach)))
     orig_conn = m.connected
 
